@@ -505,6 +505,24 @@ var Corpus = []Scenario{
 		x.Ann("c-valid", "C")
 		x.D.Converge(60)
 	}},
+	{"canary-validate-while-paused", []string{"C08", "C19", "C05"}, func(x Scn) {
+		// validation without unpausing first: (1) paused by the replica set's own condition (auto-pause), (2) by annotation
+		sc := CanaryStrategy("1")
+		sc.CDuration = 10
+		x.Setup(3, "A", sc)
+		x.Template("B")
+		x.AwaitCanaryPods(8)
+		x.RestartCanaryPods(3) // above autoPause.maxRestarts, below autoFail.maxRestarts
+		x.Rounds(2)
+		x.Ann("c-valid", "B")
+		x.D.Converge(40)
+		x.Template("C")
+		x.AwaitCanaryPods(8)
+		x.Ann("c-paused", "true")
+		x.Rounds(2)
+		x.Ann("c-valid", "C")
+		x.D.Converge(40)
+	}},
 	{"canary-node-removed", []string{"C15", "C04", "C02"}, func(x Scn) {
 		x.Setup(4, "A", CanaryStrategy("2"))
 		x.Template("B")
@@ -633,6 +651,40 @@ var Corpus = []Scenario{
 		x.Rounds(3)
 		x.do(Action{Op: "NodeRemove", N: "n2"})
 		x.D.Converge(60)
+	}},
+	{"two-eds-one-namespace-canary", []string{"C12", "C04", "C02"}, func(x Scn) {
+		// bar runs a canary (labelled canary pods) while foo's active replica set is inside its canary-label clean-up window
+		// (just activated, then a rolling update): foo must not touch bar's canary pods
+		k2 := "ns1/bar"
+		x.D.Strategy[Key] = BaseStrategy()
+		x.D.Strategy[k2] = CanaryStrategy("1")
+		for i := 1; i <= 3; i++ {
+			x.do(Action{Op: "NodeAdd", N: "n" + strconv.Itoa(i), V: "A,B,C", W: "c;z=z1"})
+		}
+		x.do(Action{Op: "CreateEDS", Key: k2, T: "A"})
+		x.D.Converge(15)
+		x.do(Action{Op: "SetTemplate", Key: k2, T: "B"})
+		x.Rounds(3)
+		x.do(Action{Op: "CreateEDS", Key: Key, T: "A"})
+		x.Rounds(4)
+		x.Template("C")
+		x.Rounds(4)
+		x.D.Converge(60)
+	}},
+	{"two-eds-overlapping-labels", []string{"C12", "C13", "C02"}, func(x Scn) {
+		// the second ExtendedDaemonSet carries, among its own metadata labels, the name label of the first one (e.g. a manifest
+		// written from a copy of the first one's pod labels): legal input, "overlapping labels" of the statement of C12
+		k2 := "ns1/bar"
+		x.D.Strategy[Key] = BaseStrategy()
+		x.D.Strategy[k2] = BaseStrategy()
+		for i := 1; i <= 2; i++ {
+			x.do(Action{Op: "NodeAdd", N: "n" + strconv.Itoa(i), V: "A,B,C", W: "c;z=z1"})
+		}
+		x.do(Action{Op: "CreateEDS", Key: Key, T: "A"})
+		x.do(Action{Op: "CreateEDS", Key: k2, T: "B", W: "name=foo"})
+		x.D.Converge(15)
+		x.Template("C")
+		x.D.Converge(40)
 	}},
 	{"migration-old-daemonset", []string{"C03", "C12", "C02", "C01"}, func(x Scn) {
 		sc := BaseStrategy()
